@@ -67,7 +67,9 @@ def _canonical_loops(tree):
             # carry no behaviour); a bare `name: T` declares and does nothing
             self.generic_visit(node)
             if node.value is not None:
-                return ast.copy_location(ast.Assign(targets=[node.target], value=node.value), node)
+                a = ast.copy_location(ast.Assign(targets=[node.target], value=node.value), node)
+                a._was_ann = True
+                return a
             return node
 
     tree = T().visit(tree)
@@ -182,6 +184,20 @@ class Class:
             elif isinstance(b, ast.Attribute):
                 self.bases.append(b.attr)
         self.methods = {}
+        # record classes (typing.NamedTuple subclasses, @dataclass): annotated class-level names are the instance fields,
+        # filled by the generated constructor in declaration order
+        decos = [ntext(d.func) if isinstance(d, ast.Call) else ntext(d) for d in node.decorator_list]
+        self.is_record = any(b in ("NamedTuple",) for b in self.bases) or any(d.split(".")[-1] == "dataclass" for d in decos)
+        self.fields = []          # every annotated class-level name (declares an attribute whatever the class kind)
+        self.field_defaults = {}
+        for st in node.body:
+            if isinstance(st, ast.AnnAssign) and isinstance(st.target, ast.Name):
+                self.fields.append(st.target.id)
+                if st.value is not None:
+                    self.field_defaults[st.target.id] = st.value
+            elif isinstance(st, ast.Assign) and getattr(st, "_was_ann", False) and len(st.targets) == 1 and isinstance(st.targets[0], ast.Name):
+                self.fields.append(st.targets[0].id)
+                self.field_defaults[st.targets[0].id] = st.value
 
     def __repr__(self):
         return "<Class %s>" % self.qual
